@@ -130,6 +130,8 @@ C09_EXCLUDED = {"list_elem", "list_write", "loop_once"}      # arrays are collap
 
 
 class Chain:
+    lang = "python"
+
     def __init__(self, kind, steps, start=None):
         self.kind, self.steps = kind, list(steps)
         self.start = start
@@ -158,6 +160,82 @@ class Chain:
             cur = nv
         body += ["last = %s" % cur]
         return "\n".join(TOP + ["def main():"] + ["    " + x for x in body] + ["    return last", "", "res = main()", ""])
+
+
+# ------------------------------------------------------------------------------------------ javascript
+JS_TOP = ["class Box {", "    constructor(v) {", "        this.v = v;", "        this.f = 0;", "        this.g = 0;", "    }", "}",
+          "function ident(z) {", "    return z;", "}",
+          "function add2(a, b) {", "    var c = a + b;", "    return c;", "}",
+          "function setf(q, w) {", "    q.f = w;", "    return q;", "}",
+          "function getf(q) {", "    var e = q.f;", "    return e;", "}",
+          "function pick(a) {", "    if (choice()) {", "        return a;", "    }", "    var k = 9;", "    return k;", "}",
+          "function picks(a) {", "    if (choice()) {", "        return a;", "    }", "    var k = \"z\";", "    return k;", "}",
+          "function mkbox(a) {", "    var n = new Box(a);", "    return n;", "}"]
+JS_STEPS = ["copy", "arith_add", "arith_sub_neg", "arith_mul", "sub3", "concat", "concat_left", "ctor_field", "field", "field_overwrite", "other_field", "other_object",
+            "alias_write", "alias_read", "list_elem", "ident_call", "add_call", "two_sites_add", "two_sites_ident", "param_field", "param_read", "returned_object",
+            "branch", "branch_one_arm", "branch_field", "two_exits"]
+
+
+def js_step(name, cur, nv, i, kind):
+    A5, A6 = ("5", "6") if kind == "int" else ('"q"', '"r"')
+    t = {
+        "copy": ["var %s = %s;" % (nv, cur)],
+        "arith_add": ["var %s = %s + 4;" % (nv, cur)],
+        "arith_sub_neg": ["var %s = %s - 8;" % (nv, cur)],
+        "arith_mul": ["var %s = %s * 2;" % (nv, cur)],
+        "sub3": ["var %s = %s - 3;" % (nv, cur)],
+        "concat": ['var %s = %s + "k";' % (nv, cur)],
+        "concat_left": ['var %s = "k" + %s;' % (nv, cur)],
+        "ctor_field": ["var o%d = new Box(%s);" % (i, cur), "var %s = o%d.v;" % (nv, i)],
+        "field": ["var o%d = new Box(0);" % i, "o%d.f = %s;" % (i, cur), "var %s = o%d.f;" % (nv, i)],
+        "field_overwrite": ["var o%d = new Box(0);" % i, "o%d.f = 1;" % i, "o%d.f = %s;" % (i, cur), "var %s = o%d.f;" % (nv, i)],
+        "other_field": ["var o%d = new Box(0);" % i, "o%d.g = %s;" % (i, A5), "o%d.f = %s;" % (i, cur), "var u%d = o%d.g;" % (i, i), "var %s = o%d.f;" % (nv, i)],
+        "other_object": ["var o%d = new Box(0);" % i, "var p%d = new Box(1);" % i, "p%d.f = %s;" % (i, A6), "o%d.f = %s;" % (i, cur), "var u%d = p%d.f;" % (i, i),
+                         "var %s = o%d.f;" % (nv, i)],
+        "alias_write": ["var o%d = new Box(0);" % i, "var p%d = o%d;" % (i, i), "p%d.f = %s;" % (i, cur), "var %s = o%d.f;" % (nv, i)],
+        "alias_read": ["var o%d = new Box(0);" % i, "var p%d = o%d;" % (i, i), "o%d.f = %s;" % (i, cur), "var %s = p%d.f;" % (nv, i)],
+        "list_elem": ["var xs%d = [%s, 1];" % (i, cur), "var %s = xs%d[0];" % (nv, i)],
+        "ident_call": ["var %s = ident(%s);" % (nv, cur)],
+        "add_call": ["var %s = add2(%s, 2);" % (nv, cur)],
+        "two_sites_add": ["var u%d = add2(1, 1);" % i, "var %s = add2(%s, 2);" % (nv, cur), "var w%d = add2(5, 5);" % i],
+        "two_sites_ident": ["var u%d = ident(7);" % i, "var %s = ident(%s);" % (nv, cur), "var w%d = ident(8);" % i],
+        "param_field": ["var o%d = new Box(0);" % i, "var r%d = setf(o%d, %s);" % (i, i, cur), "var %s = o%d.f;" % (nv, i)],
+        "param_read": ["var o%d = new Box(0);" % i, "o%d.f = %s;" % (i, cur), "var %s = getf(o%d);" % (nv, i)],
+        "returned_object": ["var o%d = mkbox(%s);" % (i, cur), "var %s = o%d.v;" % (nv, i)],
+        "branch": ["var %s = null;" % nv, "if (choice()) {", "    %s = %s;" % (nv, cur), "} else {", "    %s = %s;" % (nv, A5), "}"],
+        "branch_one_arm": ["var %s = %s;" % (nv, A6), "if (choice()) {", "    %s = %s;" % (nv, cur), "}"],
+        "branch_field": ["var o%d = new Box(0);" % i, "if (choice()) {", "    o%d.f = %s;" % (i, cur), "} else {", "    o%d.f = %s;" % (i, A6), "}", "var %s = o%d.f;" % (nv, i)],
+        "two_exits": ["var %s = %s(%s);" % (nv, "pick" if kind == "int" else "picks", cur)],
+    }
+    return t[name]
+
+
+class JsChain(Chain):
+    lang = "javascript"
+
+    def __init__(self, kind, steps):
+        Chain.__init__(self, kind, steps)
+        self.name = "js%s__%s" % (kind, "-".join(steps) or "none")
+
+    def render(self):
+        body = ["var v0 = %s;" % ("3" if self.kind == "int" else '"ab"')]
+        cur = "v0"
+        for i, st in enumerate(self.steps):
+            nv = "v%d" % (i + 1)
+            body += js_step(st, cur, nv, i, self.kind)
+            cur = nv
+        body += ["var last = %s;" % cur]
+        return "\n".join(JS_TOP + ["function main() {"] + ["    " + x for x in body] + ["    return last;", "}", "var res = main();", ""])
+
+
+def js_universe(tier, seed):
+    import random
+    one = [JsChain(k, c) for k in ("int", "str") for c in ([()] + [(s,) for s in JS_STEPS])]
+    two = [JsChain(k, c) for k in ("int", "str") for c in itertools.product(JS_STEPS, repeat=2)]
+    one, two = [c for c in one if c.ok()], [c for c in two if c.ok()]
+    if tier == "thorough":
+        return one + two
+    return one + random.Random(seed).sample(two, 30)
 
 
 # hostile string constants (C08, literal-as-data clause): each replaces the benign "ab"
